@@ -152,3 +152,46 @@ func VerifC35_ListMarshal() {
 	}
 	vrt.Reach("end")
 }
+
+// VerifC35_MergeSparseIntoDense: at precision 7 (128 registers, so that one added key stays in the
+// sparse sketch's temporary set), a sparse sketch that received one arbitrary hash and was never
+// flushed, merged with an arbitrary dense sketch in either direction, has exactly the register-wise
+// maximum of the dense registers and the registers the hash defines.
+func VerifC35_MergeSparseIntoDense() {
+	const p = 7
+	mk := func() *Plus {
+		h, err := NewPlus(p)
+		if err != nil {
+			panic(err)
+		}
+		return h
+	}
+	x := vrt.Uint64("hash")
+	small := mk()
+	small.hash = func([]byte) uint64 { return x }
+	small.Add([]byte("k"))
+	vrt.Assert(small.sparse, "the small sketch is still sparse")
+	ref := mk() // the same key in a dense sketch
+	ref.toNormal()
+	ref.hash = small.hash
+	ref.Add([]byte("k"))
+	big := mk()
+	big.toNormal()
+	for i := range big.denseList {
+		big.denseList[i] = vrt.Byte(vrt.N("b", i))
+		vrt.Assume(big.denseList[i] <= 64-p+1)
+	}
+	want := func(i int) uint8 {
+		return vrt.Ite(ref.denseList[i] > big.denseList[i], ref.denseList[i], big.denseList[i])
+	}
+	into := small.Clone().(*Plus)
+	vrt.Assert(into.Merge(big) == nil, "sparse.Merge(dense) succeeds")
+	if into.sparse {
+		into.toNormal()
+	}
+	other := big.Clone().(*Plus)
+	vrt.Assert(other.Merge(small) == nil, "dense.Merge(sparse) succeeds")
+	vrt.Assert(vrt.All(len(big.denseList), func(i int) bool { return into.denseList[i] == want(i) }), "sparse.Merge(dense): register-wise maximum, the sparse sketch's key included")
+	vrt.Assert(vrt.All(len(big.denseList), func(i int) bool { return other.denseList[i] == want(i) }), "dense.Merge(sparse): register-wise maximum")
+	vrt.Reach("end")
+}
